@@ -278,14 +278,14 @@ def random_cases(rng: random.Random, n: int) -> list[dict]:
 
 
 def comb_cases(rng: random.Random, n: int) -> list[dict]:
-    """Bars and combs under the decimal embedding (step 0.1): a trunk 128.0 or 256.0 long on an axis whose lines are
+    """Bars and combs under the decimal embedding (step 0.1): a trunk 128.0 .. 131072.0 long on an axis whose lines are
     exactly representable, branches along that long side, and the other axis at 16.0 plus 0.1 / 0.2 / 0.8 steps
     (inexact: abutting rectangles may overlap by one unit in the last place).  The one-ulp overlap along a side
     thousands of times longer than the smallest side has an area above the distance tolerance and far below the area
     tolerance.  Half of the lists get a defect (gap or overlap of 0.1, overhang of 1.0)."""
     cases = []
     for i in range(n):
-        L = rng.choice([1280, 2560]) + 10 * rng.randint(0, 3)
+        L = rng.choice([1280, 2560, 163840, 1310720]) + 10 * rng.randint(0, 3)
         y0 = 160 + rng.choice([0, 1, 3, 9])
         h = rng.choice([1, 2, 8])
         T = [0, y0, L, y0 + h]
